@@ -132,3 +132,7 @@ func VerifRotation(s *ServantProxy) (rr, con, mod []string) {
 	}
 	return
 }
+
+// VerifGraceRestart runs the application's graceful-restart step (what SIGUSR2 triggers): the process
+// starts its successor and keeps serving, and logging, until the successor has taken over.
+func VerifGraceRestart() { defaultApp.graceRestart() }
